@@ -45,3 +45,22 @@ Theorem C14_failure_classes : forall f r,
   | SRaise _ => True
   end /\ snd (file_api f r) = None /\ string_api r <> RNone.
 Proof. exact failure_classes. Qed.
+
+(** The run-time oracle of this property (Oracle/E2Eo.v, [c14_ok]: a planted error reaches every
+    caller, and all entry points tell the same story) cannot raise a false alarm on observations
+    that agree with the model ([corr]) — whenever the output writer accepts the blocks.  When the
+    in-memory assembly succeeds but the IPS/SFC writer refuses a block (an offset the format cannot
+    hold), the string API (which has no file writer) and the file APIs legitimately differ and the
+    oracle objects: such programs are outside what the checks generate (second theorem). *)
+From A816 Require Import Oracle.E2Eo Proofs.FrontOracle.
+Theorem C14_oracle_sound : forall t c must_fail,
+  corr t c = true -> cli_consistent t c -> writer_ok t c ->
+  (must_fail = false \/ forall o fin, model_result t c <> AOk o fin) ->
+  c14_ok must_fail c = true.
+Proof. exact c14_no_false_alarm. Qed.
+Theorem C14_oracle_domain : forall t c must_fail o fin,
+  corr t c = true -> cli_consistent t c ->
+  model_result t c = AOk o fin -> (forall bs, output_file (fcfg c) o <> Ok bs) ->
+  ec_api c <> FNone ->
+  c14_ok must_fail c = false /\ c12_ok c = false.
+Proof. exact c14_alarm_when_writer_refuses. Qed.
